@@ -472,6 +472,93 @@ def c23_fs_reload(a1: bool, edit: bool, a2: bool, a3: bool, auto_reload: bool, c
 
 CONDITIONS.append({"fn": "c23_fs_reload", "quick": 60, "thorough": 120, "sel_only": True})
 
+# ---- namespaces of every truthiness, given by keyword or through the render context (selector pool) ------------------
+class UidLoader(BaseLoader):
+    """Per-namespace templates: '<uid>/<name>' when a uid is given (keyword or render context), else '<name>'."""
+
+    SOURCES = {"index": "shared", "0/index": "zero", "/index": "empty", "False/index": "false", "7/index": "seven", "x/index": "x",
+               "page": "[{% include 'index' %}]", "0/page": "[0:{% include 'index' %}]"}
+
+    def get_source(self, env, template_name, *, context=None, **kwargs):
+        uid = kwargs.get("uid")
+        if uid is None and context is not None:
+            uid = context.globals.get("uid")
+        key = template_name if uid is None else "%s/%s" % (uid, template_name)
+        if key not in self.SOURCES:
+            raise TemplateNotFoundError(template_name)
+        return TemplateSource(self.SOURCES[key], key, None)
+
+
+def nsval(i):
+    if i == 0:
+        return None
+    if i == 1:
+        return ""
+    if i == 2:
+        return 0
+    if i == 3:
+        return False
+    if i == 4:
+        return 7
+    return "x"
+
+
+def _uid_request(env, name, uid, use_async, via_ctx):
+    kw = {}
+    ctx = None
+    if uid is not None:
+        if via_ctx:
+            ctx = RenderContext(env.from_string(""), globals={"uid": uid})
+        else:
+            kw["uid"] = uid
+    if use_async:
+        return snapshot(lambda: drive(env.get_template_async(name, context=ctx, **kw)))
+    return snapshot(lambda: env.get_template(name, context=ctx, **kw))
+
+
+def _uid_case(i1, i2, i3, a1, a2, c1, c2, page, choice):
+    if choice:
+        lc = CachingChoiceLoader([UidLoader()], namespace_key="uid", capacity=8)
+        lp = ChoiceLoader([UidLoader()])
+    else:
+        class CachingUid(CachingLoaderMixin, UidLoader):
+            def __init__(self, **kw):
+                super().__init__(**kw)
+        lc = CachingUid(namespace_key="uid", capacity=8)
+        lp = UidLoader()
+    env_c = Environment(loader=lc)
+    env_p = Environment(loader=lp)
+    name = "page" if page else "index"
+    ok = _uid_request(env_c, name, nsval(i1), a1, c1) == _uid_request(env_p, name, nsval(i1), a1, c1)
+    ok = ok and _uid_request(env_c, name, nsval(i2), a2, c2) == _uid_request(env_p, name, nsval(i2), a2, c2)
+    ok = ok and _uid_request(env_c, "index", nsval(i3), a1, c2) == _uid_request(env_p, "index", nsval(i3), a1, c2)
+    return ok
+
+
+def _mk_uid(choice):
+    nm_ = "c23_uid_%s" % ("choice" if choice else "mixin")
+
+    def f(i1: int, i2: int, i3: int, a1: bool, a2: bool, c1: bool, c2: bool, page: bool) -> bool:
+        """
+        pre: 0 <= i1 <= 5 and 0 <= i2 <= 5 and 0 <= i3 <= 5
+        post: _
+        """
+        # three requests whose namespace is absent / '' / 0 / false / 7 / 'x', passed by keyword or via the render
+        # context (also the context of an include inside the requested template)
+        if excluded(nm_, locals()):
+            return True
+        args = (cint(i1, 0, 5), cint(i2, 0, 5), cint(i3, 0, 5), cbool(a1), cbool(a2), cbool(c1), cbool(c2), cbool(page))
+        return finish(untraced(lambda: _uid_case(*args, choice)))
+    f.__name__ = f.__qualname__ = nm_
+    return nm_, f
+
+
+for _c in (False, True):
+    _n, _f = _mk_uid(_c)
+    globals()[_n] = _f
+    CONDITIONS.append({"fn": _n, "quick": 100, "thorough": 300, "sel_only": True})
+
+
 ASSUMPTIONS = [
     "the cache's collections.OrderedDict is replaced by vf.stubs.ModelOD (validated against the real class by the self-test)",
     "pathlib.Path in liquid.loader is replaced by FakePath (name = text after the last '/', str() = the text)",
